@@ -1,11 +1,43 @@
-import TucanProofs.Lemmas.Sort
-import TucanModel.Serialize
-/-! # C05 — property theorems (see DESIGN.md §5) -/
+import TucanProofs.Lemmas.Hill
+import TucanProofs.Lemmas.NxEdges
+/-!
+# C05 — every emitted string obeys the published grammar and canonical layout
+
+Facts about the serializer model and the grammar tables (regenerated from the parser's ATN on every run):
+-/
 namespace Tucan
 
-/-- The tuple list written by the serializer is a function of the *set* of bonds: any two listings of
-the same normalised bonds give the same sorted list. -/
-theorem C05_tuples_listing_independent {l₁ l₂ : List (Nat × Nat)} (h : l₁.Perm l₂) :
-    l₁.mergeSort leNN = l₂.mergeSort leNN := sortNN_perm_eq h
+/-- **Hill order is accepted by the grammar, for every subset of the 118 elements and any counts.**
+The formula the writer emits for any multiset of element symbols is read by the `sum_formula` rule and
+returns exactly the writer's items (symbol and count). -/
+theorem C05_hill_formula_accepted (syms : List Str) (hel : ∀ s ∈ syms, s ∈ elementSyms) (rest : List Tok) :
+    parseFormula (formulaToks (hillItems syms) ++ Tok.lit ['/'] :: rest)
+      = some ((hillItems syms).map fun i => (i.1, countText i.2), Tok.lit ['/'] :: rest) :=
+  parseFormula_hillItems syms hel rest
+
+/-- the formula text is the text of those items, and the items are the element counts of the molecule:
+every symbol that occurs, once, with its multiplicity (≥ 1) -/
+theorem C05_formula_equals_element_counts (g : Graph) :
+    writeSumFormula g = formulaText (hillItems (g.nodes.filterMap (·.attrs.sym))) ∧
+    (∀ i ∈ hillItems (g.nodes.filterMap (·.attrs.sym)),
+        1 ≤ i.2 ∧ i.2 = countOcc i.1 (g.nodes.filterMap (·.attrs.sym))) ∧
+    ((hillItems (g.nodes.filterMap (·.attrs.sym))).map (·.1)).Nodup ∧
+    (∀ s, s ∈ (hillItems (g.nodes.filterMap (·.attrs.sym))).map (·.1) ↔ s ∈ g.nodes.filterMap (·.attrs.sym)) :=
+  ⟨writeSumFormula_eq g, (hillItems_counts _).1, (hillItems_counts _).2.1, (hillItems_counts _).2.2⟩
+
+/-- **Each bond appears exactly once as `(a-b)` with `a < b`, tuples in strictly ascending order**, and
+there is one tuple per bond. -/
+theorem C05_tuples_layout (g : Graph) (hw : g.WF) (hs : g.Simple) :
+    (∀ a b, (a, b) ∈ sortedEdges g ↔ a < b ∧ g.Adj a b) ∧
+    (sortedEdges g).Pairwise (fun x y => x.1 < y.1 ∨ (x.1 = y.1 ∧ x.2 < y.2)) ∧
+    (sortedEdges g).length = g.numberOfEdges :=
+  ⟨fun a b => sortedEdges_mem g hw hs a b, sortedEdges_strict g hw hs, sortedEdges_length g⟩
+
+/-- the grammar's two formula rules are: every element optional, in code-point order (`without_carbon`),
+and C, H, then the rest in code-point order (`with_carbon`) — as the executing parser tables have it -/
+theorem C05_grammar_element_order :
+    chainLt withoutCarbonOrder = true ∧
+    withCarbonOrder = ['C'] :: ['H'] :: withoutCarbonOrder.filter (· != ['H']) :=
+  ⟨atn_withoutCarbon_is_sorted.2.2.1, atn_withCarbon_is_hill.2.2⟩
 
 end Tucan
